@@ -14,22 +14,27 @@ EXTENDS Naturals, Sequences, TLC
 
 CONSTANTS Cap,      \* capacity of the channel
           MaxReq,   \* largest read buffer / write slice offered in one call
-          Budget    \* coop budget installed at the start of the task poll (>= 2), 0 = no coop modelling
+          Budget,   \* coop budget installed at the start of the task poll (>= 2), 0 = no coop modelling
+          NW        \* distinct wakers each side may present (a half can be polled from another task / under a timeout:
+                    \* the waker of the latest poll is the one that must be woken)
 
 VARIABLES len,      \* bytes buffered                             (Conduit.data.len())
           slot,     \* whose waker sits in the single shared slot (Conduit.waker): "none" | "R" | "W"
+          slotW,    \* ... and which of that side's wakers it is (0 when the slot is empty)
+          rWid, wWid,       \* the waker the side presented when it was last told to wait
           closed,   \* Conduit.closed
           rAlive, wAlive,   \* the halves not yet dropped
           rWait, wWait,     \* side got Pending from the conduit and its waker has not been woken since
           budget,           \* thread-local TASK_BUDGET (0 = None)
           lastAct           \* the call just made, with the result the implementation must give
 
-vars == <<len, slot, closed, rAlive, wAlive, rWait, wWait, budget, lastAct>>
-View == <<len, slot, closed, rAlive, wAlive, rWait, wWait, budget>>
+vars == <<len, slot, slotW, rWid, wWid, closed, rAlive, wAlive, rWait, wWait, budget, lastAct>>
+View == <<len, slot, slotW, rWid, wWid, closed, rAlive, wAlive, rWait, wWait, budget>>
+Wakers == 1..NW
 
 Min(a, b) == IF a < b THEN a ELSE b
 
-Init == /\ len = 0 /\ slot = "none" /\ closed = FALSE
+Init == /\ len = 0 /\ slot = "none" /\ slotW = 0 /\ rWid = 0 /\ wWid = 0 /\ closed = FALSE
         /\ rAlive = TRUE /\ wAlive = TRUE /\ rWait = FALSE /\ wWait = FALSE
         /\ budget = Budget
         /\ lastAct = [k |-> "init"]
@@ -50,86 +55,93 @@ AfterConsume == IF Budget = 0 THEN 0 ELSE budget - 1
 Yield(side, act) ==
     /\ MustYield
     /\ budget' = 0
-    /\ lastAct' = act @@ [r |-> "yield", wake |-> side]
-    /\ UNCHANGED <<len, slot, closed, rAlive, wAlive, rWait, wWait>>
+    /\ lastAct' = act @@ [r |-> "yield", wake |-> side, wid |-> act.w]
+    /\ UNCHANGED <<len, slot, slotW, rWid, wWid, closed, rAlive, wAlive, rWait, wWait>>
 
-PollRead(n) ==
+PollRead(n, w) ==
     /\ rAlive /\ CanCall
-    /\ LET act == [k |-> "read", n |-> n] IN
+    /\ LET act == [k |-> "read", n |-> n, w |-> w] IN
        \/ Yield("R", act)
        \/ /\ ~MustYield
           /\ IF len > 0 THEN
                 LET c == Min(len, n) IN
                 /\ len' = len - c
                 /\ IF c > 0
-                     THEN /\ slot' = "none"
+                     THEN /\ slot' = "none" /\ slotW' = 0
                           /\ rWait' = IF WakeR THEN FALSE ELSE rWait
                           /\ wWait' = IF WakeW THEN FALSE ELSE wWait
-                          /\ lastAct' = act @@ [r |-> "ready", c |-> c, wake |-> Woken]
-                     ELSE /\ UNCHANGED <<slot, rWait, wWait>>
-                          /\ lastAct' = act @@ [r |-> "ready", c |-> 0, wake |-> "none"]
+                          /\ lastAct' = act @@ [r |-> "ready", c |-> c, wake |-> Woken, wid |-> slotW]
+                     ELSE /\ UNCHANGED <<slot, slotW, rWait, wWait>>
+                          /\ lastAct' = act @@ [r |-> "ready", c |-> 0, wake |-> "none", wid |-> 0]
+                /\ rWid' = IF c > 0 /\ WakeR THEN 0 ELSE rWid
+                /\ wWid' = IF c > 0 /\ WakeW THEN 0 ELSE wWid
                 /\ budget' = AfterConsume
                 /\ UNCHANGED <<closed, rAlive, wAlive>>
              ELSE IF closed THEN
-                /\ lastAct' = act @@ [r |-> "ready", c |-> 0, wake |-> "none"]
+                /\ lastAct' = act @@ [r |-> "ready", c |-> 0, wake |-> "none", wid |-> 0]
                 /\ budget' = AfterConsume
-                /\ UNCHANGED <<len, slot, closed, rAlive, wAlive, rWait, wWait>>
+                /\ UNCHANGED <<len, slot, slotW, rWid, wWid, closed, rAlive, wAlive, rWait, wWait>>
              ELSE
-                /\ slot' = "R" /\ rWait' = TRUE
+                \* the waker of THIS poll replaces whatever is in the slot
+                /\ slot' = "R" /\ slotW' = w /\ rWait' = TRUE /\ rWid' = w /\ wWid' = wWid
                 \* the slot is shared: registering the reader evicts a registered writer
                 /\ wWait' = wWait
-                /\ lastAct' = act @@ [r |-> "pending", wake |-> "none"]
+                /\ lastAct' = act @@ [r |-> "pending", wake |-> "none", wid |-> 0]
                 /\ budget' = IF Budget = 0 THEN 0 ELSE AfterConsume + 1   \* track_progress gives the unit back
                 /\ UNCHANGED <<len, closed, rAlive, wAlive>>
 
-PollWrite(n) ==
+PollWrite(n, w) ==
     /\ wAlive /\ CanCall
-    /\ LET act == [k |-> "write", n |-> n] IN
+    /\ LET act == [k |-> "write", n |-> n, w |-> w] IN
        \/ Yield("W", act)
        \/ /\ ~MustYield
           /\ IF closed THEN
-                /\ lastAct' = act @@ [r |-> "err", wake |-> "none"]
+                /\ lastAct' = act @@ [r |-> "err", wake |-> "none", wid |-> 0]
                 /\ budget' = AfterConsume
-                /\ UNCHANGED <<len, slot, closed, rAlive, wAlive, rWait, wWait>>
+                /\ UNCHANGED <<len, slot, slotW, rWid, wWid, closed, rAlive, wAlive, rWait, wWait>>
              ELSE IF n = 0 THEN
-                /\ lastAct' = act @@ [r |-> "ready", c |-> 0, wake |-> "none"]
+                /\ lastAct' = act @@ [r |-> "ready", c |-> 0, wake |-> "none", wid |-> 0]
                 /\ budget' = AfterConsume
-                /\ UNCHANGED <<len, slot, closed, rAlive, wAlive, rWait, wWait>>
+                /\ UNCHANGED <<len, slot, slotW, rWid, wWid, closed, rAlive, wAlive, rWait, wWait>>
              ELSE IF len = Cap THEN
-                /\ slot' = "W" /\ wWait' = TRUE /\ rWait' = rWait
-                /\ lastAct' = act @@ [r |-> "pending", wake |-> "none"]
+                /\ slot' = "W" /\ slotW' = w /\ wWait' = TRUE /\ wWid' = w /\ rWid' = rWid /\ rWait' = rWait
+                /\ lastAct' = act @@ [r |-> "pending", wake |-> "none", wid |-> 0]
                 /\ budget' = IF Budget = 0 THEN 0 ELSE AfterConsume + 1
                 /\ UNCHANGED <<len, closed, rAlive, wAlive>>
              ELSE
                 LET c == Min(n, Cap - len) IN
                 /\ len' = len + c
-                /\ slot' = "none"
+                /\ slot' = "none" /\ slotW' = 0
                 /\ rWait' = IF WakeR THEN FALSE ELSE rWait
                 /\ wWait' = IF WakeW THEN FALSE ELSE wWait
-                /\ lastAct' = act @@ [r |-> "ready", c |-> c, wake |-> Woken]
+                /\ rWid' = IF WakeR THEN 0 ELSE rWid
+                /\ wWid' = IF WakeW THEN 0 ELSE wWid
+                /\ lastAct' = act @@ [r |-> "ready", c |-> c, wake |-> Woken, wid |-> slotW]
                 /\ budget' = AfterConsume
                 /\ UNCHANGED <<closed, rAlive, wAlive>>
 
-Flush ==
+Flush(w) ==
     /\ wAlive /\ CanCall
-    /\ LET act == [k |-> "flush"] IN
+    /\ LET act == [k |-> "flush", w |-> w] IN
        \/ Yield("W", act)
        \/ /\ ~MustYield
-          /\ lastAct' = act @@ [r |-> "ready", wake |-> "none"]
+          /\ lastAct' = act @@ [r |-> "ready", wake |-> "none", wid |-> 0]
           /\ budget' = AfterConsume
-          /\ UNCHANGED <<len, slot, closed, rAlive, wAlive, rWait, wWait>>
+          /\ UNCHANGED <<len, slot, slotW, rWid, wWid, closed, rAlive, wAlive, rWait, wWait>>
 
 Close(act) ==
     /\ closed' = TRUE
-    /\ slot' = "none"
+    /\ slot' = "none" /\ slotW' = 0
     /\ rWait' = IF WakeR THEN FALSE ELSE rWait
     /\ wWait' = IF WakeW THEN FALSE ELSE wWait
-    /\ lastAct' = act @@ [r |-> "ready", wake |-> Woken]
+    /\ rWid' = IF WakeR THEN 0 ELSE rWid
+    /\ wWid' = IF WakeW THEN 0 ELSE wWid
+    /\ lastAct' = act @@ [r |-> "ready", wake |-> Woken, wid |-> slotW]
     /\ UNCHANGED len
 
-Shutdown ==
+Shutdown(w) ==
     /\ wAlive /\ CanCall
-    /\ LET act == [k |-> "shutdown"] IN
+    /\ LET act == [k |-> "shutdown", w |-> w] IN
        \/ Yield("W", act)
        \/ /\ ~MustYield
           /\ Close(act)
@@ -142,17 +154,17 @@ DropWriter == /\ wAlive /\ wAlive' = FALSE /\ Close([k |-> "dropW"]) /\ UNCHANGE
 \* The task is polled afresh: RunWithBudget re-installs the budget.
 NewPoll == /\ Budget > 0 /\ budget # Budget /\ budget' = Budget
            /\ lastAct' = [k |-> "newpoll"]
-           /\ UNCHANGED <<len, slot, closed, rAlive, wAlive, rWait, wWait>>
+           /\ UNCHANGED <<len, slot, slotW, rWid, wWid, closed, rAlive, wAlive, rWait, wWait>>
 
-Next == \/ \E n \in 0..MaxReq : PollRead(n) \/ PollWrite(n)
-        \/ Flush \/ Shutdown \/ DropReader \/ DropWriter \/ NewPoll
+Next == \/ \E n \in 0..MaxReq : \E w \in Wakers : PollRead(n, w) \/ PollWrite(n, w)
+        \/ (\E w \in Wakers : Flush(w) \/ Shutdown(w)) \/ DropReader \/ DropWriter \/ NewPoll
 
 Spec == Init /\ [][Next]_vars
 
 -----------------------------------------------------------------------------
 (* P: the property (C12) stated over the mechanism's observable state.      *)
 
-TypeOK == /\ len \in 0..Cap /\ slot \in {"none", "R", "W"}
+TypeOK == /\ len \in 0..Cap /\ slot \in {"none", "R", "W"} /\ slotW \in 0..NW /\ (slot = "none" <=> slotW = 0)
           /\ closed \in BOOLEAN /\ rWait \in BOOLEAN /\ wWait \in BOOLEAN
 
 Bounded == len <= Cap
@@ -163,8 +175,9 @@ NoLostWakeupR == (rAlive /\ rWait) => (len = 0 /\ ~closed)
 NoLostWakeupW == (wAlive /\ wWait) => (len = Cap /\ ~closed)
 
 \* The single slot is enough: it always holds the side that is waiting.
-SlotHoldsWaiter == /\ (rAlive /\ rWait) => slot = "R"
-                   /\ (wAlive /\ wWait) => slot = "W"
+\* ... and that side's waker of its LATEST poll (a half may be polled again with another waker before the peer moves)
+SlotHoldsWaiter == /\ (rAlive /\ rWait) => (slot = "R" /\ slotW = rWid)
+                   /\ (wAlive /\ wWait) => (slot = "W" /\ slotW = wWid)
 
 \* Results: end-of-stream only once closed and drained; writes fail once closed.
 ResultSound ==
